@@ -1,36 +1,109 @@
 /-
   C18 — CLI exit codes and the argument-to-context contract.
 
-  Property theorems only (helper lemmas: Props/Lemmas/C18_Parsers.lean, C18_Argv.lean, C18_Main.lean).
-  `Generated/CliMain.lean` is rewritten from the source under test on every run
-  (harness/extract_c18.py).
+  Property theorems only (helper lemmas: Props/Lemmas/C18_Parsers.lean, C18_Argv.lean, C18_Classify.lean,
+  C18_Main.lean, C18_Shortcut.lean). `Generated/CliMain.lean` and `Generated/CliOptions.lean` are
+  rewritten from the source under test on every run (harness/extract_c18.py).
 -/
 import PypyrModel.Cli
 import Generated.CliMain
+import Generated.CliOptions
 import Props.Lemmas.C18_Parsers
 import Props.Lemmas.C18_Argv
+import Props.Lemmas.C18_Classify
 import Props.Lemmas.C18_Main
+import Props.Lemmas.C18_Shortcut
 
 namespace Pypyr.C18
 open Pypyr.Cli
 
 /-! ## Exit status -/
 
-/-- 0 exactly when nothing escaped the run or a Stop-family instruction ended it; 130 exactly on
-    KeyboardInterrupt; 255 exactly when another error escaped - and then stderr carries
-    `type: message`. There is no fourth status. -/
-theorem exit_code_spec (r : Raised) :
-    (exitStatus r = 0 ↔ r = .nothing ∨ r = .stop ∨ r = .stopPipeline ∨ r = .stopStepGroup) ∧
-    (exitStatus r = 130 ↔ r = .keyboardInterrupt) ∧
-    (exitStatus r = 255 ↔ ∃ ty msg, r = .error ty msg) ∧
-    (∀ ty msg, r = .error ty msg →
-        (cliMain (pipelineRun r)).stderr = "\n" ++ "\x1b[91m" ++ ty ++ ": " ++ msg ++ "\x1b[0;0m" ++ "\n") ∧
-    (r = .keyboardInterrupt → (cliMain (pipelineRun r)).stdout = "\n") := by
-  cases r <;> simp [exitStatus, pipelineRun, cliMain, sysExit]
+/-- The unconditional half of the exit-code clause: nothing escaped or a Stop-family instruction
+    ended the run → 0; `KeyboardInterrupt` → 130 with a newline on stdout; another `Exception` →
+    255 with `type: message` on stderr. -/
+theorem exit_code_spec_forward (r : Raised) :
+    ((r = .nothing ∨ r = .stop ∨ r = .stopPipeline ∨ r = .stopStepGroup) → exitStatus r = some 0) ∧
+    (r = .keyboardInterrupt → exitStatus r = some 130 ∧
+        tryMain (pipelineRun r) = .returned ⟨some 130, "\n", ""⟩) ∧
+    (∀ ty msg, r = .error ty msg → exitStatus r = some 255 ∧
+        (tryMain (pipelineRun r)).stderr = "\n" ++ "\x1b[91m" ++ ty ++ ": " ++ msg ++ "\x1b[0;0m" ++ "\n") := by
+  refine ⟨?_, ?_, ?_⟩
+  · rintro (h | h | h | h) <;> subst h <;> rfl
+  · intro h; subst h; exact ⟨rfl, rfl⟩
+  · intro ty msg h; subst h; exact ⟨rfl, rfl⟩
 
-example : exitStatus .stopPipeline = 0 ∧ exitStatus (.error "ValueError" "boom") = 255 ∧
-    exitStatus .keyboardInterrupt = 130 ∧
-    (cliMain (pipelineRun (.error "ValueError" "boom"))).stderr = "\n\x1b[91mValueError: boom\x1b[0;0m\n" := by
+/-- **Exit-code clause, under the hypothesis that no `BaseException` other than
+    `KeyboardInterrupt` escaped the run**: 0 exactly when nothing escaped or a Stop-family
+    instruction ended the run; 130 exactly on `KeyboardInterrupt`; 255 exactly when another error
+    escaped; there is no fourth status and `main` returns (nothing is left to the interpreter). -/
+theorem exit_code_spec (r : Raised) (hb : r.isBase = false) :
+    (exitStatus r = some 0 ↔ r = .nothing ∨ r = .stop ∨ r = .stopPipeline ∨ r = .stopStepGroup) ∧
+    (exitStatus r = some 130 ↔ r = .keyboardInterrupt) ∧
+    (exitStatus r = some 255 ↔ ∃ ty msg, r = .error ty msg) ∧
+    (exitStatus r = some 0 ∨ exitStatus r = some 130 ∨ exitStatus r = some 255) ∧
+    (∃ m, tryMain (pipelineRun r) = .returned m) := by
+  cases r <;> simp_all [exitStatus, pipelineRun, tryMain, cliMain, sysExit, Outcome.status, Raised.isBase]
+
+example : exitStatus .stopPipeline = some 0 ∧ exitStatus (.error "ValueError" "boom") = some 255 ∧
+    exitStatus .keyboardInterrupt = some 130 ∧
+    (tryMain (pipelineRun (.error "ValueError" "boom"))).stderr = "\n\x1b[91mValueError: boom\x1b[0;0m\n" := by
+  decide +kernel
+
+/-- **What the hypothesis excludes.** `SystemExit(code)` raised inside a step (`sys.exit(…)`) or any
+    other `BaseException` that is not an `Exception` passes `Pipeline.run` and every handler of
+    `main`; the interpreter ends the process: with the status `code` asks for (0 for `None`,
+    `n & 0xFF` for an int, 1 and `str(code)` on stderr otherwise) and no traceback for `SystemExit`,
+    with status 1 and a traceback for the others. -/
+theorem exit_code_base (r : Raised) (hb : r.isBase = true) :
+    tryMain (pipelineRun r) = .escaped r ∧
+    (∀ c, r = .systemExit c → exitStatus r = some c.status ∧ (tryMain (pipelineRun r)).stderr = c.stderr ∧
+        (tryMain (pipelineRun r)).interpreterTraceback = false) ∧
+    (∀ ty msg, r = .baseOther ty msg → exitStatus r = some 1 ∧
+        (tryMain (pipelineRun r)).interpreterTraceback = true) := by
+  cases r <;> simp_all [exitStatus, pipelineRun, tryMain, cliMain, Outcome.status, Outcome.stderr,
+    Outcome.interpreterTraceback, Raised.isBase]
+
+/-- **Witness.** Without the hypothesis the "exactly when" of the exit-code clause is false:
+    `sys.exit(0)` (or `sys.exit()`, `sys.exit(256)`) inside a step gives status 0 although the run
+    neither completed nor was ended by a Stop instruction; `sys.exit(3)` gives a fourth status;
+    `sys.exit(130)` / `sys.exit(255)` give 130 / 255 without an interrupt / an error. -/
+theorem exit_zero_iff_fails_for_system_exit :
+    ¬ (∀ r : Raised, exitStatus r = some 0 ↔ r = .nothing ∨ r = .stop ∨ r = .stopPipeline ∨ r = .stopStepGroup) := by
+  intro h
+  have := (h (.systemExit (.int 0))).mp (by decide +kernel)
+  simp at this
+
+example : exitStatus (.systemExit (.int 0)) = some 0 ∧ exitStatus (.systemExit .absent) = some 0 ∧
+    exitStatus (.systemExit (.int 256)) = some 0 ∧ exitStatus (.systemExit (.int 3)) = some 3 ∧
+    exitStatus (.systemExit (.int (-1))) = some 255 ∧ exitStatus (.systemExit (.int 130)) = some 130 ∧
+    exitStatus (.systemExit (.other "bye")) = some 1 ∧
+    (tryMain (pipelineRun (.systemExit (.other "bye")))).stderr = "bye\n" ∧
+    exitStatus (.baseOther "GeneratorExit" "x") = some 1 ∧
+    tryMain (pipelineRun (.systemExit (.int 0))) = .escaped (.systemExit (.int 0)) := by
+  decide +kernel
+
+/-- The complete case analysis, no hypothesis: status 0, 130, 255, or one of the two ways a
+    `BaseException` ends the process. -/
+theorem exit_status_cases (r : Raised) :
+    (exitStatus r = some 0 ∧ (r = .nothing ∨ r = .stop ∨ r = .stopPipeline ∨ r = .stopStepGroup)) ∨
+    (exitStatus r = some 130 ∧ r = .keyboardInterrupt) ∨
+    (exitStatus r = some 255 ∧ ∃ ty msg, r = .error ty msg) ∨
+    (∃ c, r = .systemExit c ∧ exitStatus r = some c.status) ∨
+    (∃ ty msg, r = .baseOther ty msg ∧ exitStatus r = some 1) := by
+  cases r <;> simp [exitStatus, pipelineRun, tryMain, cliMain, sysExit, Outcome.status]
+
+/-- When `main` prints a traceback after the `type: message` line: for an `Exception`, when the
+    log level is given, not 0 and below 10 (negative levels too). -/
+theorem traceback_iff (log : Option Int) (r : Raised) :
+    mainTraceback log r = true ↔ r.isException = true ∧ ∃ n, log = some n ∧ n ≠ 0 ∧ n < 10 := by
+  cases log with
+  | none => simp [mainTraceback, showsTraceback]
+  | some n => simp [mainTraceback, showsTraceback]
+
+example : mainTraceback (some 5) (.error "E" "m") = true ∧ mainTraceback (some (-5)) (.error "E" "m") = true ∧
+    mainTraceback (some 0) (.error "E" "m") = false ∧ mainTraceback (some 10) (.error "E" "m") = false ∧
+    mainTraceback none (.error "E" "m") = false ∧ mainTraceback (some 5) .keyboardInterrupt = false := by
   decide +kernel
 
 /-! ## Exit status: a fault in any phase of `main` -/
@@ -38,11 +111,12 @@ example : exitStatus .stopPipeline = 0 ∧ exitStatus (.error "ValueError" "boom
 /-- Tie to the source (extracted from `pypyr/cli.py` and `pypyr/__main__.py` on every run):
     after `get_args`, `main` makes exactly the calls of `mainShape`, each where `mainShape` puts it -
     none before the `try`, all three in its body, none in an `else`/`finally` or after it; the
-    handler ladder is `KeyboardInterrupt → 128 + SIGINT`, `Exception → 255`, in this order; the
-    `Exception` handler starts by writing the pieces `mainStderrWrites` to stderr, the interrupt
-    handler a newline to stdout; `main` has no other `return`; the entry point is
-    `sys.exit(pypyr.cli.main())`. Moving a call out of the `try`, narrowing or reordering a handler,
-    or changing what is written breaks this obligation. -/
+    handler ladder is `KeyboardInterrupt → 128 + SIGINT`, `Exception → 255`, in this order (no
+    `BaseException` / bare handler: `SystemExit` passes); the `Exception` handler starts by writing
+    the pieces `mainStderrWrites` to stderr and goes on with the traceback guard
+    `mainTracebackGuard`, the interrupt handler writes a newline to stdout; `main` has no other
+    `return`; the entry point is `sys.exit(pypyr.cli.main())`. Moving a call out of the `try`,
+    narrowing, widening or reordering a handler, or changing what is written breaks this obligation. -/
 theorem main_shape_agrees :
     Generated.CliMain.callsOfMain =
       ("before-try", "get_args") ::
@@ -51,19 +125,20 @@ theorem main_shape_agrees :
     Generated.CliMain.handlers = mainHandlers ∧
     Generated.CliMain.errorName = some "e" ∧
     Generated.CliMain.errorWrites = mainStderrWrites ∧
+    Generated.CliMain.errorTail = mainTracebackGuard ∧
     Generated.CliMain.interruptWrites = [[(false, "\n")]] ∧
     Generated.CliMain.plainReturns = [] ∧
     Generated.CliMain.entryPoint = ["main: return pypyr.cli.main()", "sys.exit(main())"] := by
   decide +kernel
 
 /-- The model's ladder `cliMain` is the extracted ladder: for whatever is raised in the `try` body,
-    the first extracted handler that catches it returns what `cliMain` returns, and what the
-    `Exception` handler writes first is the extracted pieces evaluated at `type(e).__name__ = ty`,
-    `str(e) = msg`. -/
+    the first extracted handler that catches it returns what `cliMain` returns - and no extracted
+    handler catches it exactly when `cliMain` lets it go; what the `Exception` handler writes first
+    is the extracted pieces evaluated at `type(e).__name__ = ty`, `str(e) = msg`. -/
 theorem ladder_is_extracted (x : Raised) (hx : x ≠ .nothing) :
-    ladderRet Generated.CliMain.handlers x = some (cliMain x).ret ∧
+    ladderRet Generated.CliMain.handlers x = (cliMain x).map (·.ret) ∧
     (∀ ty msg, x = .error ty msg →
-        renderWrites ty msg Generated.CliMain.errorWrites = some (cliMain x).stderr) := by
+        renderWrites ty msg Generated.CliMain.errorWrites = (cliMain x).map (·.stderr)) := by
   have hh : Generated.CliMain.handlers = mainHandlers := main_shape_agrees.2.1
   have hw : Generated.CliMain.errorWrites = mainStderrWrites := main_shape_agrees.2.2.2.1
   rw [hh, hw]
@@ -75,14 +150,23 @@ theorem ladder_is_extracted (x : Raised) (hx : x ≠ .nothing) :
 example : ladderRet mainHandlers .keyboardInterrupt = some (some 130) ∧
     ladderRet mainHandlers (.error "ConfigError" "x") = some (some 255) ∧
     ladderRet mainHandlers .nothing = none ∧
+    ladderRet mainHandlers (.systemExit (.int 0)) = none ∧
+    ladderRet mainHandlers (.baseOther "GeneratorExit" "") = none ∧
     renderWrites "ConfigError" "boom" mainStderrWrites = some "\n\x1b[91mConfigError: boom\x1b[0;0m\n" := by
   decide +kernel
 
-/-- Nothing escapes `main`: whatever each of `config.init()`, `set_root_logger(…)` and
-    `pipelinerunner.run(…)` raises, `main` returns, and what goes down the handler ladder is what
-    the first raising call raised. -/
-theorem main_never_escapes (f : Faults) :
-    mainPhases f = .returned (cliMain (seqRaises f [.configInit, .setRootLogger, .runPipeline])) := rfl
+/-- What goes down the handler ladder is what the first raising call raised: whatever each of
+    `config.init()`, `set_root_logger(…)` and `pipelinerunner.run(…)` raises, `main` ends as its
+    `try` statement does with that. -/
+theorem main_is_try_of_first_raise (f : Faults) :
+    mainPhases f = tryMain (seqRaises f [.configInit, .setRootLogger, .runPipeline]) := rfl
+
+/-- Nothing but a `BaseException` outside `Exception`/`KeyboardInterrupt` escapes `main`: `main`
+    returns iff what the first raising call raised is not one. -/
+theorem main_returns_iff (f : Faults) :
+    (∃ m, mainPhases f = .returned m) ↔ (seqRaises f mainShape.inTry).isBase = false := by
+  show (∃ m, tryMain (seqRaises f mainShape.inTry) = .returned m) ↔ _
+  cases seqRaises f mainShape.inTry <;> simp [tryMain, cliMain, Raised.isBase]
 
 /-- **Exit-code clause, for a fault in any phase.** Let `p` be the first call of `main` that raises
     (all calls before it in source order return) and `x` what it raises. Then, whichever phase `p`
@@ -91,32 +175,34 @@ theorem main_never_escapes (f : Faults) :
     * an `Exception` of type name `ty` with `str(e) = msg` → status 255 and stderr is
       `"\n" ++ "\x1b[91m" ++ ty ++ ": " ++ msg ++ "\x1b[0;0m" ++ "\n"`;
     * a Stop-family signal can only be what `config.init`/`set_root_logger` raised (`Pipeline.run`
-      absorbs it below `main`, see `exit_zero_iff`); it is an `Exception` like any other: 255. -/
+      absorbs it below `main`, see `exit_zero_iff`); it is an `Exception` like any other: 255;
+    * `SystemExit(c)` / another `BaseException` leave `main`: status `c.status` / 1. -/
 theorem exit_code_spec_any_phase (f : Faults) (p : Phase) (x : Raised)
     (hbefore : ∀ q : Phase, q.idx < p.idx → callRaises f q = .nothing)
     (hx : callRaises f p = x) (hne : x ≠ .nothing) :
-    mainPhases f = .returned (cliMain x) ∧
-    (x = .keyboardInterrupt →
-      (mainPhases f).status = some 130 ∧ (cliMain x).stdout = "\n" ∧ (cliMain x).stderr = "") ∧
+    mainPhases f = tryMain x ∧
+    (x = .keyboardInterrupt → mainPhases f = .returned ⟨some 130, "\n", ""⟩ ∧ (mainPhases f).status = some 130) ∧
     (∀ ty msg, x = .error ty msg →
       (mainPhases f).status = some 255 ∧
-      (cliMain x).stderr = "\n" ++ "\x1b[91m" ++ ty ++ ": " ++ msg ++ "\x1b[0;0m" ++ "\n") ∧
+      (mainPhases f).stderr = "\n" ++ "\x1b[91m" ++ ty ++ ": " ++ msg ++ "\x1b[0;0m" ++ "\n") ∧
     ((x = .stop ∨ x = .stopPipeline ∨ x = .stopStepGroup) →
-      p ≠ .runPipeline ∧ (mainPhases f).status = some 255) := by
+      p ≠ .runPipeline ∧ (mainPhases f).status = some 255) ∧
+    (∀ c, x = .systemExit c → mainPhases f = .escaped x ∧ (mainPhases f).status = some c.status) ∧
+    (∀ ty msg, x = .baseOther ty msg → mainPhases f = .escaped x ∧ (mainPhases f).status = some 1) := by
   obtain ⟨pre, post, hsplit, hpre⟩ := inTry_split p
   have hseq : seqRaises f mainShape.inTry = x := by
     rw [hsplit, seqRaises_first f pre post p (fun q hq => hbefore q ((hpre q).1 hq)) (hx ▸ hne), hx]
-  have hmain : mainPhases f = .returned (cliMain x) := by
-    simp only [mainPhases, mainOf, mainShape, seqRaises] at hseq ⊢
+  have hmain : mainPhases f = tryMain x := by
+    show tryMain (seqRaises f mainShape.inTry) = _
     rw [hseq]
-  have hs := cliMain_status x
-  refine ⟨hmain, ?_, ?_, ?_⟩
+  have hs := tryMain_spec x
+  refine ⟨hmain, ?_, ?_, ?_, ?_, ?_⟩
   · intro h
-    rw [hmain]
-    exact ⟨by simp [Outcome.status, (hs.2.1 h).1], (hs.2.1 h).2⟩
+    rw [hmain, hs.2.1 h]
+    exact ⟨rfl, rfl⟩
   · intro ty msg h
-    rw [hmain]
-    exact ⟨by simp [Outcome.status, (hs.2.2.1 ty msg h).1], (hs.2.2.1 ty msg h).2⟩
+    rw [hmain, hs.2.2.1 ty msg h]
+    exact ⟨rfl, rfl⟩
   · intro h
     have hnr := run_call_never_stop f
     refine ⟨?_, ?_⟩
@@ -128,13 +214,22 @@ theorem exit_code_spec_any_phase (f : Faults) (p : Phase) (x : Raised)
       · exact hnr.2.2 hx
     · rw [hmain]
       rcases h with h | h | h
-      · simp [Outcome.status, (hs.2.2.2.1 h).1]
-      · simp [Outcome.status, (hs.2.2.2.2.1 h).1]
-      · simp [Outcome.status, (hs.2.2.2.2.2 h).1]
+      · rw [hs.2.2.2.1 h]; rfl
+      · rw [hs.2.2.2.2.1 h]; rfl
+      · rw [hs.2.2.2.2.2.1 h]; rfl
+  · intro c h
+    rw [hmain, hs.2.2.2.2.2.2 (by rw [h]; rfl)]
+    subst h
+    exact ⟨rfl, rfl⟩
+  · intro ty msg h
+    rw [hmain, hs.2.2.2.2.2.2 (by rw [h]; rfl)]
+    subst h
+    exact ⟨rfl, rfl⟩
 
 /-- A missing `$PYPYR_CONFIG_GLOBAL` file (raised by `config.init()`), an unwritable `--logpath`
     (raised by `set_root_logger`) and a missing pipeline all end the same way; an interrupt during
-    config look-up is 130; a later phase's fault is not reached when an earlier phase raised. -/
+    config look-up is 130; a later phase's fault is not reached when an earlier phase raised; a
+    `sys.exit(3)` in a step ends the process with 3. -/
 example :
     mainPhases (faultAt .configInit (.error "ConfigError" "gone")) =
       .returned ⟨some 255, "", "\n\x1b[91mConfigError: gone\x1b[0;0m\n"⟩ ∧
@@ -143,61 +238,98 @@ example :
     (mainPhases (faultAt .configInit .keyboardInterrupt)).status = some 130 ∧
     (mainPhases (faultAt .runPipeline .stopPipeline)).status = some 0 ∧
     (mainPhases (faultAt .configInit .stop)).status = some 255 ∧
-    (mainPhases (fun | .configInit => .keyboardInterrupt | _ => .error "E" "later")).status = some 130 := by
+    (mainPhases (fun | .configInit => .keyboardInterrupt | _ => .error "E" "later")).status = some 130 ∧
+    (mainPhases (faultAt .runPipeline (.systemExit (.int 3)))).status = some 3 := by
   decide +kernel
 
 /-- Status 0 **exactly** when every phase returned, the runner counting as returned when the run
-    completed or a Stop-family instruction ended it. -/
-theorem exit_zero_iff (f : Faults) :
+    completed or a Stop-family instruction ended it - provided no phase raises a `BaseException`
+    other than `KeyboardInterrupt` (`exit_zero_iff_full` is the statement without the proviso). -/
+theorem exit_zero_iff (f : Faults) (hb : ∀ p, (f p).isBase = false) :
     (mainPhases f).status = some 0 ↔
       f .configInit = .nothing ∧ f .setRootLogger = .nothing ∧
       (f .runPipeline = .nothing ∨ f .runPipeline = .stop ∨ f .runPipeline = .stopPipeline ∨
        f .runPipeline = .stopStepGroup) := by
   rw [← run_call_returns_iff]
+  have hnb := seqRaises_not_base f mainShape.inTry hb
   have hiff : (mainPhases f).status = some 0 ↔ seqRaises f mainShape.inTry = .nothing := by
-    show some (sysExit (cliMain (seqRaises f mainShape.inTry)).ret) = some 0 ↔ _
-    rcases cliMain_status_cases (seqRaises f mainShape.inTry) with ⟨h1, h2⟩ | ⟨h1, h2⟩ | ⟨h1, h2, _⟩
+    show (tryMain (seqRaises f mainShape.inTry)).status = some 0 ↔ _
+    rcases (tryMain_cases_of_not_base _ hnb).2 with ⟨h1, h2⟩ | ⟨h1, h2⟩ | ⟨h1, h2, _⟩
     · rw [h1]; simp [h2]
     · rw [h1]; simp [h2]
     · rw [h1]; simp [h2]
   rw [hiff, seqRaises_nothing_iff]
   simp [mainShape, callRaises]
 
+example : ∀ p, (faultAt .runPipeline .stop p).isBase = false := by intro p; cases p <;> rfl
+
+/-- Status 0 exactly when every phase returned **or** the first raising call raised a
+    `SystemExit` whose code means 0 (`None`, 0, a multiple of 256). -/
+theorem exit_zero_iff_full (f : Faults) :
+    (mainPhases f).status = some 0 ↔
+      seqRaises f mainShape.inTry = .nothing ∨
+      ∃ c, seqRaises f mainShape.inTry = .systemExit c ∧ c.status = 0 := by
+  show (tryMain (seqRaises f mainShape.inTry)).status = some 0 ↔ _
+  rcases tryMain_cases (seqRaises f mainShape.inTry) with ⟨h1, h2⟩ | ⟨h1, h2⟩ | ⟨h1, h2⟩ | ⟨c, h2, _, h1⟩ |
+      ⟨ty, msg, h2, _, h1⟩
+  · rw [h1]; simp [h2]
+  · rw [h1]; simp [h2]
+  · rw [h1]
+    cases hx : seqRaises f mainShape.inTry <;> simp_all [Raised.isException]
+  · rw [h1, h2]; simp
+  · rw [h1, h2]; simp
+
 /-- 130 exactly when the first raising call raised `KeyboardInterrupt`, 255 exactly when it raised
-    anything else; there is no fourth status and no uncaught exception. -/
-theorem exit_status_trichotomy (f : Faults) :
+    anything else; there is no fourth status and no uncaught exception - provided no phase raises a
+    `BaseException` other than `KeyboardInterrupt`. -/
+theorem exit_status_trichotomy (f : Faults) (hb : ∀ p, (f p).isBase = false) :
+    (∃ m, mainPhases f = .returned m) ∧
+    (((mainPhases f).status = some 0 ∧ seqRaises f mainShape.inTry = .nothing) ∨
+     ((mainPhases f).status = some 130 ∧ seqRaises f mainShape.inTry = .keyboardInterrupt) ∨
+     ((mainPhases f).status = some 255 ∧ seqRaises f mainShape.inTry ≠ .nothing ∧
+       seqRaises f mainShape.inTry ≠ .keyboardInterrupt)) :=
+  tryMain_cases_of_not_base _ (seqRaises_not_base f mainShape.inTry hb)
+
+/-- Without the proviso there are five ways: the three above, `SystemExit` (the status its code
+    asks for, no traceback), another `BaseException` (status 1, interpreter traceback). -/
+theorem exit_status_five_ways (f : Faults) :
     ((mainPhases f).status = some 0 ∧ seqRaises f mainShape.inTry = .nothing) ∨
     ((mainPhases f).status = some 130 ∧ seqRaises f mainShape.inTry = .keyboardInterrupt) ∨
-    ((mainPhases f).status = some 255 ∧ seqRaises f mainShape.inTry ≠ .nothing ∧
-      seqRaises f mainShape.inTry ≠ .keyboardInterrupt) := by
-  show (some (sysExit (cliMain (seqRaises f mainShape.inTry)).ret) = some 0 ∧ _) ∨
-    (some (sysExit (cliMain (seqRaises f mainShape.inTry)).ret) = some 130 ∧ _) ∨
-    (some (sysExit (cliMain (seqRaises f mainShape.inTry)).ret) = some 255 ∧ _)
-  rcases cliMain_status_cases (seqRaises f mainShape.inTry) with h | h | h
-  · exact .inl ⟨by rw [h.1], h.2⟩
-  · exact .inr (.inl ⟨by rw [h.1], h.2⟩)
-  · exact .inr (.inr ⟨by rw [h.1], h.2⟩)
+    ((mainPhases f).status = some 255 ∧ (seqRaises f mainShape.inTry).isException = true) ∨
+    (∃ c, seqRaises f mainShape.inTry = .systemExit c ∧ mainPhases f = .escaped (.systemExit c) ∧
+      (mainPhases f).status = some c.status) ∨
+    (∃ ty msg, seqRaises f mainShape.inTry = .baseOther ty msg ∧ mainPhases f = .escaped (.baseOther ty msg) ∧
+      (mainPhases f).status = some 1) := by
+  show ((tryMain (seqRaises f mainShape.inTry)).status = some 0 ∧ _) ∨ _
+  rcases tryMain_cases (seqRaises f mainShape.inTry) with h | h | h | ⟨c, h1, h2, h3⟩ | ⟨ty, msg, h1, h2, h3⟩
+  · exact .inl h
+  · exact .inr (.inl h)
+  · exact .inr (.inr (.inl h))
+  · exact .inr (.inr (.inr (.inl ⟨c, h1, by show tryMain _ = _; rw [h2, h1], h3⟩)))
+  · exact .inr (.inr (.inr (.inr ⟨ty, msg, h1, by show tryMain _ = _; rw [h2, h1], h3⟩)))
 
 /-- The placement matters, for every conceivable placement of the calls: `main` is free of uncaught
-    exceptions for **all** behaviours of its calls exactly when no call sits before the `try`.
-    (So a variant of `main` with any of the three calls hoisted out of the `try` violates the
-    exit-code clause on some fault of that call.) -/
+    exceptions for **all** behaviours of its calls that raise no `BaseException` other than
+    `KeyboardInterrupt` exactly when no call sits before the `try`. (So a variant of `main` with any
+    of the three calls hoisted out of the `try` violates the exit-code clause on some fault of that
+    call.) -/
 theorem no_escape_iff_all_calls_in_try (s : MainShape) :
-    (∀ f : Faults, ∃ m, mainOf s f = .returned m) ↔ s.beforeTry = [] := by
+    (∀ f : Faults, (∀ p, (f p).isBase = false) → ∃ m, mainOf s f = .returned m) ↔ s.beforeTry = [] := by
   constructor
   · intro h
     cases hb : s.beforeTry with
     | nil => rfl
     | cons p ps =>
       exfalso
-      obtain ⟨m, hm⟩ := h (fun _ => .error "E" "m")
+      obtain ⟨m, hm⟩ := h (fun _ => .error "E" "m") (fun _ => rfl)
       have hp : callRaises (fun _ => Raised.error "E" "m") p = .error "E" "m" := by
         cases p <;> simp [callRaises, pipelineRun]
       have : seqRaises (fun _ => Raised.error "E" "m") (p :: ps) = .error "E" "m" := by
         rw [seqRaises_cons_raises _ _ _ (by rw [hp]; simp), hp]
       simp [mainOf, hb, this] at hm
-  · intro h f
-    exact ⟨cliMain (seqRaises f s.inTry), by simp [mainOf, h, seqRaises]⟩
+  · intro h f hf
+    have := (tryMain_cases_of_not_base _ (seqRaises_not_base f s.inTry hf)).1
+    simpa [mainOf, h, seqRaises] using this
 
 /-- The seeded shape: `config.init()` above the `try`. A config fault then leaves `main` uncaught. -/
 example : mainOf ⟨[.configInit], [.setRootLogger, .runPipeline]⟩ (faultAt .configInit (.error "ConfigError" "gone")) =
@@ -205,70 +337,203 @@ example : mainOf ⟨[.configInit], [.setRootLogger, .runPipeline]⟩ (faultAt .c
 
 /-- The one-phase statement `exit_code_spec` is the run-phase instance. -/
 theorem exit_status_run_phase (r : Raised) :
-    (mainPhases (faultAt .runPipeline r)).status = some (exitStatus r) := by
+    (mainPhases (faultAt .runPipeline r)).status = exitStatus r := by
   cases r <;> rfl
 
-/-- A usage error of the argument parser is status 2; otherwise the status is that of the run
-    invoked with the parsed arguments passed through field by field. -/
-theorem cli_process_spec (argv : List String) (runs : RunCall → Raised) (a : Args)
-    (h : parseArgv argv = .ok a) :
-    cliProcess argv runs = some (exitStatus (runs
-      { pipelineName := a.name, argsIn := a.ctx, parseArgs := some true, groups := a.groups,
-        successGroup := a.success, failureGroup := a.failure, pyDir := a.dir })) := by
-  simp [cliProcess, h, runCallOf]
+/-- A usage error of the argument parser is status 2; `-h` / `--help` / `--version` is status 0 and
+    nothing runs; otherwise the status is that of the run invoked with the parsed arguments passed
+    through field by field. -/
+theorem cli_process_spec (argv : List String) (runs : RunCall → Raised) :
+    (parseArgv argv = .usage → cliProcess argv runs = some (some 2, none)) ∧
+    (parseArgv argv = .exit0 → cliProcess argv runs = some (some 0, none)) ∧
+    (∀ a, parseArgv argv = .ok a →
+      cliProcess argv runs = some (exitStatus (runs (runCallOf a)), some (runCallOf a)) ∧
+      runCallOf a =
+        { pipelineName := a.name, argsIn := a.ctx, parseArgs := some true, groups := a.groups,
+          successGroup := a.success, failureGroup := a.failure, pyDir := a.dir }) := by
+  refine ⟨?_, ?_, ?_⟩
+  · intro h; simp [cliProcess, h]
+  · intro h; simp [cliProcess, h]
+  · intro a h; simp [cliProcess, h, runCallOf]
+
+/-- **`--version` / `-h` / `--help`: status 0, no run.** Wherever the option stands among options
+    that parse (`pre`), whatever follows it (`rest`, as long as no string before a `--` in it is an
+    ambiguous abbreviation - that is found first, in argparse's pattern pass - or outside the
+    domain): the process exits 0 and `pipelinerunner.run` is not called. -/
+theorem version_help_exit0 (pre : List WOpt) (flag : String) (o : OptName) (rest : List String) (toks : List Tok)
+    (runs : RunCall → Raised)
+    (hpre : ∀ w ∈ pre, w.Ok) (ho : o = .help ∨ o = .version) (hflag : classify flag = .opt o none)
+    (hrest : tokenize false rest = .toks toks) :
+    parseArgv (renderOpts pre ++ flag :: rest) = .exit0 ∧
+    cliProcess (renderOpts pre ++ flag :: rest) runs = some (some 0, none) := by
+  have htok : tokenize false (renderOpts pre ++ flag :: rest) = .toks (optsToks pre ++ (Tok.opt o none :: toks)) := by
+    rw [tokenize_opts _ _ hpre, tokenize_optstr _ _ _ _ hflag, hrest]
+    rfl
+  have h1 := run_opts {} (.inl rfl) pre hpre
+  have hb := boundary_modeAfter Mode.idle (.inl rfl) pre
+  have h2 : step { ({} : PSt) with mode := modeAfter Mode.idle pre, args := applyOpts {} (pre.map (·.opt)) } (.opt o none) =
+      .stop .exit0 := by
+    rw [step_opt_of_boundary _ hb]
+    rcases ho with h | h <;> subst h <;> rfl
+  have hp : parseArgv (renderOpts pre ++ flag :: rest) = .exit0 := by
+    simp only [parseArgv, htok, run_append, h1, StepR.bind_next, run, h2]
+  exact ⟨hp, by simp [cliProcess, hp]⟩
+
+example : parseArgv ["--version"] = .exit0 ∧ parseArgv ["-h"] = .exit0 ∧ parseArgv ["--ver"] = .exit0 ∧
+    parseArgv ["--log", "20", "--help", "pipe", "--success"] = .exit0 ∧
+    parseArgv ["pipe", "extra", "--success", "s", "surplus", "--version"] = .exit0 ∧
+    parseArgv ["--success", "--version"] = .usage ∧ parseArgv ["--version", "--lo"] = .usage ∧
+    parseArgv ["--version=1"] = .usage ∧ parseArgv ["-hh"] = .exit0 ∧ parseArgv ["-hx"] = .usage := by
+  decide +kernel
 
 /-- The same with a fault possible in every phase: for a parsed command line the outcome is that of
     `main` with the logger set up from `--log`/`--logpath` as given and the runner called with the
-    parsed arguments field by field; `main` returns in every case (no uncaught exception) and the
-    status is 0, 130 or 255. -/
+    parsed arguments field by field; if no phase raises a `BaseException` other than
+    `KeyboardInterrupt`, `main` returns and the status is 0, 130 or 255. -/
 theorem cli_process_phases_spec (argv : List String) (cfg : Raised)
-    (log : Option Nat → Option String → Raised) (runs : RunCall → Raised) (a : Args)
+    (log : Option Int → Option String → Raised) (runs : RunCall → Raised) (a : Args)
     (h : parseArgv argv = .ok a) :
-    ∃ m, cliProcessPhases argv cfg log runs = some (.returned m) ∧
-      m = cliMain (seqRaises (fun
+    ∃ o, cliProcessPhases argv cfg log runs = some o ∧
+      o = tryMain (seqRaises (fun
         | .configInit => cfg
         | .setRootLogger => log a.log a.logpath
         | .runPipeline => runs
             { pipelineName := a.name, argsIn := a.ctx, parseArgs := some true, groups := a.groups,
               successGroup := a.success, failureGroup := a.failure, pyDir := a.dir })
         [.configInit, .setRootLogger, .runPipeline]) ∧
-      (sysExit m.ret = 0 ∨ sysExit m.ret = 130 ∨ sysExit m.ret = 255) := by
+      ((cfg.isBase = false ∧ (∀ l p, (log l p).isBase = false) ∧ (∀ c, (runs c).isBase = false)) →
+        (∃ m, o = .returned m) ∧ (o.status = some 0 ∨ o.status = some 130 ∨ o.status = some 255)) := by
   refine ⟨_, by simp only [cliProcessPhases, h]; rfl, rfl, ?_⟩
-  rcases cliMain_status_cases (seqRaises _ [.configInit, .setRootLogger, .runPipeline]) with h' | h' | h'
+  intro ⟨h1, h2, h3⟩
+  have hb : ∀ p : Phase, ((fun
+        | .configInit => cfg
+        | .setRootLogger => log a.log a.logpath
+        | .runPipeline => runs
+            { pipelineName := a.name, argsIn := a.ctx, parseArgs := some true, groups := a.groups,
+              successGroup := a.success, failureGroup := a.failure, pyDir := a.dir } : Faults) p).isBase = false := by
+    intro p
+    cases p
+    · exact h1
+    · exact h2 _ _
+    · exact h3 _
+  have := tryMain_cases_of_not_base _ (seqRaises_not_base _ [.configInit, .setRootLogger, .runPipeline] hb)
+  refine ⟨this.1, ?_⟩
+  rcases this.2 with h' | h' | h'
   · exact .inl h'.1
   · exact .inr (.inl h'.1)
   · exact .inr (.inr h'.1)
 
+/-! ## The option table -/
+
+/-- Tie to the source (extracted from `get_parser` / `get_args` on every run): the parser is built
+    with `allow_abbrev=True` and no other parsing-relevant keyword (so `add_help`, `prefix_chars`,
+    `exit_on_error` have their defaults); its `add_argument` calls are, row by row, those of
+    `parserRows` - option strings, dest, nargs, type, default, action, no further keyword; there is
+    nothing else in `get_parser`; `get_args` is `get_parser().parse_args(args)`. -/
+theorem option_table_agrees :
+    Generated.CliOptions.parserKwargs = [("allow_abbrev", "True")] ∧
+    Generated.CliOptions.arguments.map ArgRow.ofTuple = parserRows ∧
+    Generated.CliOptions.otherStatements = [] ∧
+    Generated.CliOptions.getArgs = ["get_parser().parse_args(args)"] := by
+  refine ⟨by decide +kernel, by decide +kernel, by decide +kernel, by decide +kernel⟩
+
+/-- The option-string table `classify` uses is the one those rows give rise to (`-h`, `--help`
+    first), and `classify` on every option string of every row returns that row's option. -/
+theorem option_table_is_rows :
+    optionTable = tableOfRows parserRows ∧
+    ∀ r ∈ parserRows, ∀ o, r.optName = some o → ∀ s ∈ r.optionStrings, classify s = .opt o none := by
+  decide +kernel
+
+/-- `classify` on an exact option string returns the option whose table row contains it. -/
+theorem classify_exact_option (s : String) (o : OptName) (h : (s, o) ∈ optionTable) :
+    classify s = .opt o none :=
+  classify_exact (s, o) h
+
+example : classify "--loglevel" = .opt .log none ∧ classify "--log" = .opt .log none ∧
+    classify "--logpath" = .opt .logpath none ∧ classify "-h" = .opt .help none := by decide +kernel
+
+/-- **Abbreviations** (`allow_abbrev=True`): every prefix of three or more characters of a long
+    option string is that option, except `--l` / `--lo` (ambiguous between `--log`, `--loglevel`,
+    `--logpath`: a usage error) and `--log` itself, which is an exact match (also read as a prefix
+    of `--logpath`). -/
+theorem abbreviations :
+    ∀ p ∈ optionTableChars, p.1 ≠ ['-', 'h'] → ∀ k ∈ List.range (p.1.length + 1), 3 ≤ k →
+      classifyChars (p.1.take k) =
+        if p.1.take k = ['-', '-', 'l'] ∨ p.1.take k = ['-', '-', 'l', 'o'] then .ambiguous
+        else if p.1.take k = ['-', '-', 'l', 'o', 'g'] then .opt .log none
+        else .opt p.2 none :=
+  abbrev_complete
+
+example : classify "--gro" = .opt .groups none ∧ classify "--suc" = .opt .success none ∧
+    classify "--lo" = .ambiguous ∧ classify "--logl" = .opt .log none ∧ classify "--logp" = .opt .logpath none ∧
+    classify "--d" = .opt .dir none ∧ classify "--x" = .unknown ∧ classify "--=x" = .ambiguous := by decide +kernel
+
+/-- **`flag=value`**: a long flag - exact or abbreviated - that is read as option `o`, joined to any
+    text with `=`, is `o` with that text as its explicit argument (split at the *first* `=`). -/
+theorem joined_option (flag v : String) (o : OptName) (r : List Char)
+    (hflag : flag.toList = '-' :: '-' :: r) (hne : '=' ∉ r) (hf : classify flag = .opt o none) :
+    classify (flag ++ "=" ++ v) = .opt o (some v) :=
+  classify_joined flag v o r hflag hne hf
+
+example : classify "--log=10" = .opt .log (some "10") ∧ classify "--dir=x=y" = .opt .dir (some "x=y") ∧
+    classify "--succ=a b" = .opt .success (some "a b") ∧ classify "--groups=" = .opt .groups (some "") := by
+  decide +kernel
+
+/-- **Strings that start with `-` without being options**: `-c…` with `c` neither `-` nor `h` (ASCII)
+    is an argument exactly when it looks like a negative number (`-1`, `-1.5`, `-.5`) or contains a
+    blank; otherwise it is an unknown option (→ "unrecognized arguments", status 2). -/
+theorem dash_leading (c : Char) (rest : List Char) (hc : c ≠ '-') (hh : c ≠ 'h')
+    (hascii : hasNonAscii ('-' :: c :: rest) = false) :
+    classify (String.ofList ('-' :: c :: rest)) =
+      if negNumber ('-' :: c :: rest) then .pos
+      else if ('-' :: c :: rest).contains ' ' then .pos else .unknown := by
+  simp only [classify, String.toList_ofList]
+  exact classifyChars_dash_other c rest hc hh hascii
+
+example : classify "-1" = .pos ∧ classify "-1.5" = .pos ∧ classify "-.5" = .pos ∧ classify "-x y" = .pos ∧
+    classify "-" = .pos ∧ classify "-x" = .unknown ∧ classify "-1x" = .unknown ∧ classify "-1." = .unknown ∧
+    classify "" = .pos ∧ classify "--x y" = .pos := by decide +kernel
+
+/-- `--log` takes what `int()` takes. -/
+example : parseInt "10" = .ok 10 ∧ parseInt "+5" = .ok 5 ∧ parseInt " 5 " = .ok 5 ∧ parseInt "5_0" = .ok 50 ∧
+    parseInt "-5" = .ok (-5) ∧ parseInt "007" = .ok 7 ∧ parseInt "5__0" = .invalid ∧ parseInt "_5" = .invalid ∧
+    parseInt "" = .invalid ∧ parseInt "0x10" = .invalid ∧ parseInt "+ 5" = .invalid ∧ parseInt "\t7\n" = .ok 7 := by
+  decide +kernel
+
 /-! ## argv pass-through -/
 
 /-- Layout `options* name ctx* options*`: every option (with its values) and the positionals come
-    back exactly as written, later duplicates of an option winning. The options before the name must
-    not end with `--groups` (its `nargs='*'` would take the name). -/
-theorem argv_passthrough (pre post : List Opt) (name : String) (ctx : List String)
-    (hpre : ∀ o ∈ pre, o.Ok) (hpost : ∀ o ∈ post, o.Ok) (hng : NotEndingInGroups pre)
+    back exactly as written, later duplicates of an option winning - whether an option is written
+    with its exact option string or an abbreviation, its value separately or joined with `=`
+    (`WOpt`), and whether or not a context argument starts with `-` (as long as argparse takes it
+    as an argument: `Plain`, see `dash_leading`). The options before the name must not end with an
+    unjoined `--groups` (its `nargs='*'` would take the name). -/
+theorem argv_passthrough (pre post : List WOpt) (name : String) (ctx : List String)
+    (hpre : ∀ w ∈ pre, w.Ok) (hpost : ∀ w ∈ post, w.Ok) (hng : NotEndingInGroups pre)
     (hn : Plain name) (hc : ∀ s ∈ ctx, Plain s) :
     parseArgv (renderOpts pre ++ (name :: ctx ++ renderOpts post)) =
-      .ok { applyOpts {} (pre ++ post) with name := name, ctx := ctx } := by
+      .ok { applyOpts {} ((pre ++ post).map (·.opt)) with name := name, ctx := ctx } := by
   have htok : tokenize false (renderOpts pre ++ (name :: ctx ++ renderOpts post)) =
-      some (optsToks pre ++ (Tok.pos name :: (ctx.map Tok.pos ++ optsToks post))) := by
+      .toks (optsToks pre ++ (Tok.pos name :: (ctx.map Tok.pos ++ optsToks post))) := by
     rw [tokenize_opts _ _ hpre, List.cons_append, tokenize_pos _ _ hn, tokenize_plain_list _ _ hc]
     have := tokenize_opts post [] hpost
     simp only [List.append_nil] at this
     rw [this]
-    simp [tokenize]
+    simp [tokenize, TokR.map]
   have h1 := run_opts {} (.inl rfl) pre hpre
-  have h2 : step { ({} : PSt) with mode := modeAfter Mode.idle pre, args := applyOpts {} pre } (.pos name) =
-      some { mode := .afterName, hasName := true, args := { applyOpts {} pre with name := name } } := by
+  have h2 : step { ({} : PSt) with mode := modeAfter Mode.idle pre, args := applyOpts {} (pre.map (·.opt)) } (.pos name) =
+      .next { mode := .afterName, hasName := true, args := { applyOpts {} (pre.map (·.opt)) with name := name } } := by
     simp [modeAfter_idle pre hng, step, stepIdle]
-  have h3 := run_ctx { mode := .afterName, hasName := true, args := { applyOpts {} pre with name := name } }
+  have h3 := run_ctx { mode := .afterName, hasName := true, args := { applyOpts {} (pre.map (·.opt)) with name := name } }
     (.inl rfl) ctx
   have hb : Boundary (if ctx = [] then Mode.afterName else Mode.inCtx) := by
     split <;> simp [Boundary]
   have h4 := run_opts
     { mode := (if ctx = [] then Mode.afterName else Mode.inCtx), hasName := true,
-      args := { applyOpts {} pre with name := name, ctx := (applyOpts {} pre).ctx ++ ctx } } hb post hpost
-  simp only [parseArgv, htok, run_append, h1, Option.bind_some, run, h2, h3, h4]
-  rw [finish_boundary _ (boundary_modeAfter _ hb post) rfl]
+      args := { applyOpts {} (pre.map (·.opt)) with name := name, ctx := (applyOpts {} (pre.map (·.opt))).ctx ++ ctx } }
+    hb post hpost
+  simp only [parseArgv, htok, run_append, h1, StepR.bind_next, run, h2, h3, h4]
+  rw [finish_boundary _ (boundary_modeAfter _ hb post) rfl rfl]
   simp only [applyOpts_ctx, List.nil_append, applyOpts_name_ctx]
   rw [erase_dd_of_plain _ hc]
   simp [applyOpts, List.foldl_append]
@@ -277,30 +542,47 @@ example : parseArgv ["--log", "20", "pipe", "k=v", "a b", "--groups", "g1", "g2"
     .ok { name := "pipe", ctx := ["k=v", "a b"], groups := some ["g1", "g2"], success := some "s", log := some 20 } := by
   decide +kernel
 
+/-- The hypotheses are satisfiable with abbreviations, `=`-joined values and dash-leading arguments. -/
+example : (⟨.log "+2_0", "--logl", true⟩ : WOpt).Ok ∧ (⟨.groups ["g1", "-1"], "--gro", false⟩ : WOpt).Ok ∧
+    (⟨.success "a b", "--suc", true⟩ : WOpt).Ok ∧ NotEndingInGroups [⟨.groups ["g"], "--groups", true⟩] ∧
+    Plain "-1" ∧ Plain "-x y" ∧ Plain "-.5" := by
+  refine ⟨⟨⟨"+2_0", rfl, by decide +kernel, by decide +kernel⟩, fun s h => ?_⟩,
+          ⟨⟨by decide +kernel, fun v hv => ?_⟩, fun s h => by cases h⟩,
+          ⟨⟨"a b", rfl, by decide +kernel, by decide +kernel⟩, fun s h => by cases h⟩,
+          by simp [NotEndingInGroups, WOpt.opensGroups], by decide +kernel, by decide +kernel, by decide +kernel⟩
+  · cases h; exact ⟨20, by decide +kernel⟩
+  · simp only [Opt.values, List.mem_cons, List.mem_nil_iff, or_false] at hv
+    rcases hv with hv | hv <;> subst hv <;> decide +kernel
+
+example : parseArgv ["--logl=+2_0", "pipe", "-1", "k=v", "-x y", "--gro", "g1", "-1", "--suc=a b"] =
+    .ok { name := "pipe", ctx := ["-1", "k=v", "-x y"], groups := some ["g1", "-1"], success := some "a b",
+          log := some 20 } := by
+  decide +kernel
+
 /-- Layout `options* -- name anything*`: after `--` nothing is interpreted; the options may end with
     `--groups`; the only string that does not come back is the first literal `--` among the
     context arguments (argparse removes it). -/
-theorem argv_passthrough_dd_first (pre : List Opt) (name : String) (ctx : List String)
-    (hpre : ∀ o ∈ pre, o.Ok) :
+theorem argv_passthrough_dd_first (pre : List WOpt) (name : String) (ctx : List String)
+    (hpre : ∀ w ∈ pre, w.Ok) :
     parseArgv (renderOpts pre ++ ("--" :: name :: ctx)) =
-      .ok { applyOpts {} pre with name := name, ctx := ctx.erase "--" } := by
+      .ok { applyOpts {} (pre.map (·.opt)) with name := name, ctx := ctx.erase "--" } := by
   have htok : tokenize false (renderOpts pre ++ ("--" :: name :: ctx)) =
-      some (optsToks pre ++ (Tok.dd :: Tok.pos name :: ctx.map Tok.pos)) := by
+      .toks (optsToks pre ++ (Tok.dd :: Tok.pos name :: ctx.map Tok.pos)) := by
     rw [tokenize_opts _ _ hpre, tokenize_dd]
-    simp
+    simp [TokR.map]
   have h1 := run_opts {} (.inl rfl) pre hpre
-  have h2 : step { ({} : PSt) with mode := modeAfter Mode.idle pre, args := applyOpts {} pre } .dd =
-      some { mode := .afterDD, hasName := false, args := applyOpts {} pre } := by
+  have h2 : step { ({} : PSt) with mode := modeAfter Mode.idle pre, args := applyOpts {} (pre.map (·.opt)) } .dd =
+      .next { mode := .afterDD, hasName := false, args := applyOpts {} (pre.map (·.opt)) } := by
     rcases modeAfter_idle_or_groups pre with h | h <;> simp [h, step, stepIdle]
-  have h3 : step { mode := .afterDD, hasName := false, args := applyOpts {} pre } (.pos name) =
-      some { mode := .afterName, hasName := true, args := { applyOpts {} pre with name := name } } := by
+  have h3 : step { mode := .afterDD, hasName := false, args := applyOpts {} (pre.map (·.opt)) } (.pos name) =
+      .next { mode := .afterName, hasName := true, args := { applyOpts {} (pre.map (·.opt)) with name := name } } := by
     simp [step]
-  have h4 := run_ctx { mode := .afterName, hasName := true, args := { applyOpts {} pre with name := name } }
+  have h4 := run_ctx { mode := .afterName, hasName := true, args := { applyOpts {} (pre.map (·.opt)) with name := name } }
     (.inl rfl) ctx
   have hb : Boundary (if ctx = [] then Mode.afterName else Mode.inCtx) := by
     split <;> simp [Boundary]
-  simp only [parseArgv, htok, run_append, h1, Option.bind_some, run, h2, h3, h4]
-  rw [finish_boundary _ hb rfl]
+  simp only [parseArgv, htok, run_append, h1, StepR.bind_next, run, h2, h3, h4]
+  rw [finish_boundary _ hb rfl rfl]
   simp [applyOpts_ctx]
 
 example : parseArgv ["--groups", "g1", "g2", "--", "pipe", "-x", "--success", "k=v"] =
@@ -309,40 +591,40 @@ example : parseArgv ["--groups", "g1", "g2", "--", "pipe", "-x", "--success", "k
 
 /-- Layout `options* name ctx* -- anything*`: a `--` after the name or among the context arguments
     opens an uninterpreted tail which is appended to the context arguments. -/
-theorem argv_passthrough_dd_tail (pre : List Opt) (name : String) (ctx tail : List String)
-    (hpre : ∀ o ∈ pre, o.Ok) (hng : NotEndingInGroups pre)
+theorem argv_passthrough_dd_tail (pre : List WOpt) (name : String) (ctx tail : List String)
+    (hpre : ∀ w ∈ pre, w.Ok) (hng : NotEndingInGroups pre)
     (hn : Plain name) (hc : ∀ s ∈ ctx, Plain s) (ht : "--" ∉ tail) :
     parseArgv (renderOpts pre ++ (name :: ctx ++ ("--" :: tail))) =
-      .ok { applyOpts {} pre with name := name, ctx := ctx ++ tail } := by
+      .ok { applyOpts {} (pre.map (·.opt)) with name := name, ctx := ctx ++ tail } := by
   have htok : tokenize false (renderOpts pre ++ (name :: ctx ++ ("--" :: tail))) =
-      some (optsToks pre ++ (Tok.pos name :: (ctx.map Tok.pos ++ (Tok.dd :: tail.map Tok.pos)))) := by
+      .toks (optsToks pre ++ (Tok.pos name :: (ctx.map Tok.pos ++ (Tok.dd :: tail.map Tok.pos)))) := by
     rw [tokenize_opts _ _ hpre, List.cons_append, tokenize_pos _ _ hn, tokenize_plain_list _ _ hc, tokenize_dd]
-    simp
+    simp [TokR.map]
   have h1 := run_opts {} (.inl rfl) pre hpre
-  have h2 : step { ({} : PSt) with mode := modeAfter Mode.idle pre, args := applyOpts {} pre } (.pos name) =
-      some { mode := .afterName, hasName := true, args := { applyOpts {} pre with name := name } } := by
+  have h2 : step { ({} : PSt) with mode := modeAfter Mode.idle pre, args := applyOpts {} (pre.map (·.opt)) } (.pos name) =
+      .next { mode := .afterName, hasName := true, args := { applyOpts {} (pre.map (·.opt)) with name := name } } := by
     simp [modeAfter_idle pre hng, step, stepIdle]
-  have h3 := run_ctx { mode := .afterName, hasName := true, args := { applyOpts {} pre with name := name } }
+  have h3 := run_ctx { mode := .afterName, hasName := true, args := { applyOpts {} (pre.map (·.opt)) with name := name } }
     (.inl rfl) ctx
-  simp only [parseArgv, htok, run_append, h1, Option.bind_some, run, h2, h3]
+  simp only [parseArgv, htok, run_append, h1, StepR.bind_next, run, h2, h3]
   cases ctx with
   | nil =>
-    have h4 : step (⟨.afterName, true, { applyOpts {} pre with name := name, ctx := (applyOpts {} pre).ctx ++ [] }⟩ : PSt) .dd =
-        some ⟨.inCtx, true, { applyOpts {} pre with name := name, ctx := (applyOpts {} pre).ctx ++ [] }⟩ := by
+    have h4 : step (⟨.afterName, true, false, { applyOpts {} (pre.map (·.opt)) with name := name, ctx := (applyOpts {} (pre.map (·.opt))).ctx ++ [] }⟩ : PSt) .dd =
+        .next ⟨.inCtx, true, false, { applyOpts {} (pre.map (·.opt)) with name := name, ctx := (applyOpts {} (pre.map (·.opt))).ctx ++ [] }⟩ := by
       simp [step]
-    have h5 := run_ctx ⟨.inCtx, true, { applyOpts {} pre with name := name, ctx := (applyOpts {} pre).ctx ++ [] }⟩
+    have h5 := run_ctx ⟨.inCtx, true, false, { applyOpts {} (pre.map (·.opt)) with name := name, ctx := (applyOpts {} (pre.map (·.opt))).ctx ++ [] }⟩
       (.inr rfl) tail
     simp only [if_true, h4, h5]
-    rw [finish_boundary _ (by split <;> simp [Boundary]) rfl]
+    rw [finish_boundary _ (by split <;> simp [Boundary]) rfl rfl]
     simp [applyOpts_ctx, List.erase_of_not_mem ht]
   | cons c cs =>
-    have h4 : step (⟨.inCtx, true, { applyOpts {} pre with name := name, ctx := (applyOpts {} pre).ctx ++ (c :: cs) }⟩ : PSt) .dd =
-        some ⟨.inCtx, true, { applyOpts {} pre with name := name, ctx := (applyOpts {} pre).ctx ++ (c :: cs) ++ ["--"] }⟩ := by
+    have h4 : step (⟨.inCtx, true, false, { applyOpts {} (pre.map (·.opt)) with name := name, ctx := (applyOpts {} (pre.map (·.opt))).ctx ++ (c :: cs) }⟩ : PSt) .dd =
+        .next ⟨.inCtx, true, false, { applyOpts {} (pre.map (·.opt)) with name := name, ctx := (applyOpts {} (pre.map (·.opt))).ctx ++ (c :: cs) ++ ["--"] }⟩ := by
       simp [step]
-    have h5 := run_ctx ⟨.inCtx, true, { applyOpts {} pre with name := name, ctx := (applyOpts {} pre).ctx ++ (c :: cs) ++ ["--"] }⟩
+    have h5 := run_ctx ⟨.inCtx, true, false, { applyOpts {} (pre.map (·.opt)) with name := name, ctx := (applyOpts {} (pre.map (·.opt))).ctx ++ (c :: cs) ++ ["--"] }⟩
       (.inr rfl) tail
     simp only [reduceCtorEq, if_false, h4, h5]
-    rw [finish_boundary _ (by split <;> simp [Boundary]) rfl]
+    rw [finish_boundary _ (by split <;> simp [Boundary]) rfl rfl]
     simp only [applyOpts_ctx, List.nil_append]
     have hne : "--" ∉ (c :: cs) := fun hm => plain_ne_dd (hc _ hm) rfl
     have : ((c :: cs) ++ ["--"] ++ tail).erase "--" = (c :: cs) ++ tail := by
@@ -355,10 +637,14 @@ example : parseArgv ["pipe", "a", "--", "-b", "--groups"] = .ok { name := "pipe"
   decide +kernel
 
 /-- What argparse refuses (status 2), by example: context arguments after an option, a `--groups`
-    list directly before the name, a one-argument option without value, no pipeline name. -/
+    list directly before the name, a one-argument option without value, no pipeline name, an
+    ambiguous abbreviation, an unknown option, a `--log` value that is no int, a joined `--groups`
+    followed by a second group (it becomes a surplus positional). -/
 example : parseArgv ["pipe", "--success", "s", "a"] = .usage ∧ parseArgv ["--groups", "g", "pipe"] = .usage ∧
     parseArgv ["pipe", "--success"] = .usage ∧ parseArgv [] = .usage ∧
-    parseArgv ["pipe", "--version"] = .outside := by
+    parseArgv ["pipe", "--lo", "5"] = .usage ∧ parseArgv ["pipe", "-x"] = .usage ∧
+    parseArgv ["pipe", "--log=x"] = .usage ∧ parseArgv ["pipe", "--groups=a", "b"] = .usage ∧
+    parseArgv ["--groups=a", "pipe", "b"] = .ok { name := "pipe", ctx := ["b"], groups := some ["a"] } := by
   decide +kernel
 
 /-! ## Context parsers -/
@@ -539,5 +825,158 @@ example : initialContext (fun _ => .ok .none) (some .keyvaluepairs) none (some [
     initialContext (fun _ => .ok .none) (some .list) (some true) none (some []) =
       some (.ok [("argList", .list [])]) := by
   refine ⟨rfl, rfl, rfl, rfl⟩
+
+/-! ## Shortcuts (`config.shortcuts`, `Pipeline.new_pipe_and_args`) -/
+
+/-- **Without a shortcut of that name the arguments pass through unchanged**: no entry under the
+    name, a null entry or an empty one - the new `Pipeline` gets the caller's name, arguments,
+    groups, success/failure groups, loader and `py_dir`, the caller's dict initialises the context,
+    and `_get_parse_input` decides on the caller's `parse_args`. -/
+theorem shortcut_none_identity (shortcuts : Ctx) (c : ApiCall)
+    (h : shortcuts.get? c.name = none ∨ shortcuts.get? c.name = some .none ∨ shortcuts.get? c.name = some (.dict [])) :
+    applyShortcut shortcuts c = some (.ok
+      { name := c.name, contextArgs := c.contextArgs,
+        parseInput := getParseInput c.parseInput c.contextArgs c.dictIn.isSome,
+        dictIn := c.dictIn, loader := c.loader, groups := c.groups, success := c.success, failure := c.failure,
+        pyDir := .caller c.pyDir }) := by
+  rcases h with h | h | h <;> simp [applyShortcut, h, resolveDirect]
+
+/-- In particular an empty `config.shortcuts` (the default) never changes anything. -/
+theorem shortcut_empty_table (c : ApiCall) : applyShortcut [] c = some (.ok (resolveDirect c)) := rfl
+
+example : applyShortcut [("other", .dict [(.str "pipeline_name", .str "x")])]
+      { name := "pipe", contextArgs := some ["a=b"], parseInput := some true, groups := some ["g"], pyDir := some "/d" } =
+    some (.ok { name := "pipe", contextArgs := some ["a=b"], parseInput := true, dictIn := none, loader := none,
+                groups := some ["g"], success := none, failure := none, pyDir := .caller (some "/d") }) := by
+  decide +kernel
+
+/-- **How `parse_input` is decided with a shortcut**: the caller's `parse_args` is dropped (the CLI's
+    `True` as much as an API caller's `False`); `skip_parse: b` in the shortcut decides (`not b`);
+    without it the default table of `_get_parse_input` is applied to the *rewritten* arguments and
+    dict - so a shortcut with `args` and without `parser_args`, called without context arguments,
+    does not run the parser, CLI or not. -/
+theorem parse_input_with_shortcut (shortcuts : Ctx) (c : ApiCall) (sc : List (Val × Val)) (r : Resolved)
+    (hfound : shortcuts.get? c.name = some (.dict sc)) (hne : sc ≠ [])
+    (hr : applyShortcut shortcuts c = some (.ok r)) :
+    (∀ pi, applyShortcut shortcuts { c with parseInput := pi } = some (.ok r)) ∧
+    (∀ b, dictGet? sc (.str "skip_parse") = some (.bool b) → r.parseInput = !b) ∧
+    ((dictGet? sc (.str "skip_parse") = none ∨ dictGet? sc (.str "skip_parse") = some .none) →
+      r.parseInput = !(!argsTruthy r.contextArgs && r.dictIn.isSome)) := by
+  have hres : resolveWith c.name sc c = some (.ok r) := by
+    cases sc with
+    | nil => exact absurd rfl hne
+    | cons x xs => simpa [applyShortcut, hfound] using hr
+  refine ⟨?_, ?_, ?_⟩
+  · intro pi
+    cases sc with
+    | nil => exact absurd rfl hne
+    | cons x xs =>
+      simp only [applyShortcut, hfound]
+      exact hres
+  · intro b hb
+    obtain ⟨name, ca, pi, di, g, s, f, l, d, _, _, _, hpi, _, _, _, _, _, _, hr'⟩ := resolveWith_ok _ _ _ _ hres
+    simp only [scParseIn, hb, Option.some.injEq] at hpi
+    subst hpi; subst hr'
+    rfl
+  · intro hb
+    obtain ⟨name, ca, pi, di, g, s, f, l, d, _, _, _, hpi, _, _, _, _, _, _, hr'⟩ := resolveWith_ok _ _ _ _ hres
+    have : pi = none := by
+      rcases hb with hb | hb <;> simp only [scParseIn, hb, Option.some.injEq] at hpi <;> exact hpi.symm
+    subst this; subst hr'
+    rfl
+
+/-- The CLI always says `parse_args=True`; with this shortcut (`args`, no `parser_args`) and no
+    context arguments on the command line the parser does not run; with an argument it does; with
+    `skip_parse: false` it does in any case. -/
+example :
+    (applyShortcut [("sc", .dict [(.str "pipeline_name", .str "real"), (.str "args", .dict [(.str "k", .str "v")])])]
+      (runCallOf { name := "sc" }).toApi).map (·.map (·.parseInput)) = some (.ok false) ∧
+    (applyShortcut [("sc", .dict [(.str "pipeline_name", .str "real"), (.str "args", .dict [(.str "k", .str "v")])])]
+      (runCallOf { name := "sc", ctx := ["a=b"] }).toApi).map (·.map (·.parseInput)) = some (.ok true) ∧
+    (applyShortcut [("sc", .dict [(.str "pipeline_name", .str "real"), (.str "args", .dict [(.str "k", .str "v")]),
+                                  (.str "skip_parse", .bool false)])]
+      (runCallOf { name := "sc" }).toApi).map (·.map (·.parseInput)) = some (.ok true) := by
+  decide +kernel
+
+/-- **What a shortcut rewrites and which of the caller's values win.** For a shortcut that applies
+    and resolves to `r`:
+    * the pipeline that runs is the shortcut's `pipeline_name`, not the name given;
+    * `groups`, `success`, `failure`, `loader` are the caller's exactly when the shortcut has no such
+      key; `py_dir` is the caller's when the shortcut has none;
+    * a non-empty `parser_args` list is put before the caller's context arguments; without
+      `parser_args` the caller's arguments are unchanged;
+    * a non-empty `args` dict is the base over which the caller's `dict_in` is `update`d (top-level
+      keys of the caller win, nothing is merged below the top level); without `args` the caller's
+      dict is unchanged. -/
+theorem shortcut_rewrite (shortcuts : Ctx) (c : ApiCall) (sc : List (Val × Val)) (r : Resolved)
+    (hfound : shortcuts.get? c.name = some (.dict sc)) (hne : sc ≠ [])
+    (hr : applyShortcut shortcuts c = some (.ok r)) :
+    dictGet? sc (.str "pipeline_name") = some (.str r.name) ∧ r.name ≠ "" ∧
+    (dictGet? sc (.str "groups") = none → r.groups = c.groups) ∧
+    (dictGet? sc (.str "success") = none → r.success = c.success) ∧
+    (dictGet? sc (.str "failure") = none → r.failure = c.failure) ∧
+    (dictGet? sc (.str "loader") = none → r.loader = c.loader) ∧
+    (dictGet? sc (.str "py_dir") = none → r.pyDir = .caller c.pyDir) ∧
+    (dictGet? sc (.str "parser_args") = none → r.contextArgs = c.contextArgs) ∧
+    (∀ xs pa, dictGet? sc (.str "parser_args") = some (.list xs) → strsOfVals xs = some pa → pa ≠ [] →
+      r.contextArgs = some (pa ++ c.contextArgs.getD [])) ∧
+    (dictGet? sc (.str "args") = none → r.dictIn = c.dictIn) ∧
+    (∀ kvs scd, dictGet? sc (.str "args") = some (.dict kvs) → ctxOfDict kvs = some scd → scd ≠ [] →
+      r.dictIn = some (Ctx.update scd (c.dictIn.getD [])) ∧
+      ∀ k, (Ctx.update scd (c.dictIn.getD [])).get? k =
+        match (c.dictIn.getD []).reverse.find? (fun kv => kv.1 = k) with
+        | some kv => some kv.2
+        | none => scd.get? k) := by
+  have hres : resolveWith c.name sc c = some (.ok r) := by
+    cases sc with
+    | nil => exact absurd rfl hne
+    | cons x xs => simpa [applyShortcut, hfound] using hr
+  obtain ⟨name, ca, pi, di, g, s, f, l, d, hname, hnn, hca, _, hdi, hg, hs, hf, hl, hd, hr'⟩ := resolveWith_ok _ _ _ _ hres
+  subst hr'
+  refine ⟨?_, hnn, ?_, ?_, ?_, ?_, ?_, ?_, ?_, ?_, ?_⟩
+  · simp only [getStrOr] at hname
+    split at hname <;> simp_all
+  · intro h; rw [scGroups_absent _ _ h] at hg; simpa using hg.symm
+  · intro h; rw [getStrOr_absent _ _ _ h] at hs; simpa using hs.symm
+  · intro h; rw [getStrOr_absent _ _ _ h] at hf; simpa using hf.symm
+  · intro h; rw [getStrOr_absent _ _ _ h] at hl; simpa using hl.symm
+  · intro h; rw [scPyDir_absent _ _ h] at hd; simpa using hd.symm
+  · intro h; rw [scContextArgs_absent _ _ _ h] at hca; simpa using hca.symm
+  · intro xs pa h1 h2 h3
+    rw [scContextArgs_list _ _ _ xs pa h1 h2 h3] at hca
+    simpa using hca.symm
+  · intro h; rw [scDictIn_absent _ _ h] at hdi; simpa using hdi.symm
+  · intro kvs scd h1 h2 h3
+    rw [scDictIn_dict _ _ kvs scd h1 h2 h3] at hdi
+    exact ⟨by simpa using hdi.symm, fun k => get_update _ _ k⟩
+
+example : applyShortcut
+      [("sc", .dict [(.str "pipeline_name", .str "real/pipe"), (.str "parser_args", .list [.str "a=1", .str "b=2"]),
+                     (.str "args", .dict [(.str "k", .str "sc"), (.str "only", .int 1)]), (.str "groups", .str "g0"),
+                     (.str "success", .none), (.str "py_dir", .str "/sc/dir")])]
+      { name := "sc", contextArgs := some ["b=3"], parseInput := some false, dictIn := some [("k", .str "mine")],
+        groups := some ["g1", "g2"], success := some "s", failure := some "f", pyDir := some "/mine" } =
+    some (.ok { name := "real/pipe", contextArgs := some ["a=1", "b=2", "b=3"], parseInput := true,
+                dictIn := some [("k", .str "mine"), ("only", .int 1)], loader := none, groups := some ["g0"],
+                success := none, failure := some "f", pyDir := .path "/sc/dir" }) := by
+  decide +kernel
+
+/-- A shortcut without (or with an empty) `pipeline_name`, and a `parser_args` that is a string, are
+    `ConfigError`s - whatever else the shortcut says. -/
+theorem shortcut_config_errors (n : String) (sc : List (Val × Val)) (c : ApiCall) :
+    ((dictGet? sc (.str "pipeline_name") = none ∨ dictGet? sc (.str "pipeline_name") = some .none ∨
+      dictGet? sc (.str "pipeline_name") = some (.str "")) →
+        resolveWith n sc c = some (.error (configErrorNoName n))) ∧
+    (∀ name s, dictGet? sc (.str "pipeline_name") = some (.str name) → name ≠ "" →
+      dictGet? sc (.str "parser_args") = some (.str s) → s ≠ "" →
+        resolveWith n sc c = some (.error (configErrorParserArgs n))) := by
+  refine ⟨?_, ?_⟩
+  · rintro (h | h | h) <;> simp [resolveWith, getStrOr, h]
+  · intro name s h1 h2 h3 h4
+    simp [resolveWith, getStrOr, h1, h2, scContextArgs, h3, h4]
+
+example : applyShortcut [("sc", .dict [(.str "groups", .str "g")])] { name := "sc" } =
+      some (.error ⟨"pypyr.errors.ConfigError", "shortcut 'sc' has no pipeline_name set. You must set pipeline_name for this shortcut in config so that pypyr knows which pipeline to run."⟩) := by
+  decide +kernel
 
 end Pypyr.C18
